@@ -19,29 +19,10 @@ Open Scope string_scope.
 Open Scope list_scope.
 Open Scope Z_scope.
 
-Section Loop.
-Context {FS : Type}.
-Variable recv : FrBaseA.cfg -> FS -> bytes -> FS * list delivery * outc.   (* incl. resetFrame on exception *)
-Variable pk : packer.
-
-Fixpoint run_serial (sk : skel) (cfg : scfg) (st : FS) (l : units slavectx) (chunks : list bytes) : e2e_result FS :=
-  match chunks with
-  | [] => {| e_units := l; e_out := []; e_framer := st; e_stop := None; e_fault := None |}
-  | [] :: cs => run_serial sk cfg st l cs                                   (* `if data:` *)
-  | c :: cs =>
-      let '(st1, ds, o) := recv (framer_cfg sk cfg l) st c in
-      let '(l1, b1, flt) := handle_all pk sk cfg l ds in
-      match flt, o with
-      | Some e, _ => {| e_units := l1; e_out := b1; e_framer := st1; e_stop := None; e_fault := Some e |}
-      | None, OutOfFuel => {| e_units := l1; e_out := b1; e_framer := st1; e_stop := None; e_fault := Some OtherExc |}
-      | None, _ =>
-          let r := run_serial sk cfg st1 l1 cs in
-          {| e_units := e_units r; e_out := b1 ++ e_out r; e_framer := e_framer r;
-             e_stop := match o with FrBaseA.Exc e => Some e | _ => e_stop r end;   (* the first exception the ladder caught *)
-             e_fault := e_fault r |}
-      end
-  end.
-End Loop.
+Definition run_serial {FS : Type} (recv : FrBaseA.cfg -> FS -> bytes -> FS * list delivery * outc) (pk : packer)
+                      (sk : skel) (cfg : scfg) (st : FS) (l : units slavectx) (chunks : list bytes)
+  : e2e_result (units slavectx) FS :=
+  run_serial_g (u_keys slavectx) (handle_all pk sk cfg) recv sk cfg st l chunks.
 
 (* ---------------------------------------------------------------- ASCII *)
 Definition packet_ascii (o : out) (ro : obj) : res bytes :=
@@ -49,7 +30,7 @@ Definition packet_ascii (o : out) (ro : obj) : res bytes :=
   do data <- py_encode ro;
   a_build lrc ascii (o_uid o) fc data.
 
-Definition ascii_server_run (sk : skel) (cfg : scfg) (l : units slavectx) (chunks : list bytes) : e2e_result astate :=
+Definition ascii_server_run (sk : skel) (cfg : scfg) (l : units slavectx) (chunks : list bytes) : e2e_result (units slavectx) astate :=
   run_serial (a_recv_h base lrc ascii e2e_dec) packet_ascii sk cfg (a_init ascii) l chunks.
 
 (* ---------------------------------------------------------------- RTU
@@ -90,5 +71,5 @@ Definition packet_rtu (o : out) (ro : obj) : res bytes :=
   do data <- py_encode ro;
   FrRtu.rtu_build (o_uid o) fc data.
 
-Definition rtu_server_run (sk : skel) (cfg : scfg) (l : units slavectx) (chunks : list bytes) : e2e_result FrRtu.rstate :=
+Definition rtu_server_run (sk : skel) (cfg : scfg) (l : units slavectx) (chunks : list bytes) : e2e_result (units slavectx) FrRtu.rstate :=
   run_serial rtu_recv_h packet_rtu sk cfg FrRtu.rtu_init l chunks.
